@@ -135,9 +135,47 @@ pub fn build(name: &str, specs: &BTreeMap<usize, &Spec>, n_bins: usize) -> GenBu
     build_modules(name, modules, n_bins)
 }
 
+/// Removes generated crates (and their build products) that differ from `name` only in the seed:
+/// keeps the disk footprint at one generated crate per (property, tier).
+fn prune_siblings(name: &str) {
+    let prefix = match name.rfind('_') {
+        Some(p) if name[p + 1..].chars().all(|c| c.is_ascii_digit()) && p + 1 < name.len() => &name[..=p],
+        _ => return,
+    };
+    let gen_dir = Path::new(RD).join("gen");
+    let mut stale: Vec<String> = vec![];
+    if let Ok(rd) = std::fs::read_dir(&gen_dir) {
+        for e in rd.flatten() {
+            let n = e.file_name().to_string_lossy().to_string();
+            if n != name && n.starts_with(prefix) && n[prefix.len()..].chars().all(|c| c.is_ascii_digit()) {
+                let _ = std::fs::remove_dir_all(e.path());
+                stale.push(n);
+            }
+        }
+    }
+    for n in stale {
+        let pat = format!("gen_{}", n);
+        for sub in ["debug", "debug/deps", "debug/.fingerprint"] {
+            if let Ok(rd) = std::fs::read_dir(Path::new(RD).join("target").join(sub)) {
+                for e in rd.flatten() {
+                    let f = e.file_name().to_string_lossy().to_string();
+                    if f.starts_with(&format!("{}_b", pat)) || f.starts_with(&format!("{}-", pat)) {
+                        if e.path().is_dir() {
+                            let _ = std::fs::remove_dir_all(e.path());
+                        } else {
+                            let _ = std::fs::remove_file(e.path());
+                        }
+                    }
+                }
+            }
+        }
+    }
+}
+
 /// Same, for ready-made module bodies (each must define `pub fn run(&rt::Case) -> rt::Trace`).
 pub fn build_modules(name: &str, mut modules: BTreeMap<usize, String>, n_bins: usize) -> GenBuild {
     let t0 = std::time::Instant::now();
+    prune_siblings(name);
     let mut failed: BTreeMap<usize, String> = BTreeMap::new();
     for round in 0..6 {
         let groups = write_crate(name, &modules, n_bins);
